@@ -69,9 +69,13 @@ class HarnessAbort(BaseException):
 class Built:
     """One instantiation of a scenario: world objects plus krrood query objects."""
 
-    def __init__(self, scenario: Dict, mon: Monitor):
+    def __init__(self, scenario: Dict, mon: Monitor, reference: bool = False):
         self.sc = scenario
         self.mon = mon
+        # the isolated reference builds every query in one go; the history under test may evaluate a rule query
+        # before its rules are attached (rule["early"])
+        self.reference = reference
+        self.early_log: List[list] = []
         self.items: Dict[int, eworld.Item] = {}
         self.domain_lists: Dict[int, list] = {}
         self.vars: List[Any] = []
@@ -226,12 +230,40 @@ class Built:
                 query = an(desc, quantification=cons)
             else:
                 query = an(desc)
+        if rule and rule.get("early") is not None and not self.reference:
+            self._evaluate_early(query, qi, rule["early"])
         if rule:
             with query:
                 self._add_conclusion(out, rule["base"])
                 for br in rule.get("branches", []):
                     self._make_branch(out, br)
         return query
+
+    def _evaluate_early(self, query, qi, k: int):
+        """The program evaluates the query object before it attaches the rules (k results, -1: all of them)."""
+        mon = self.mon
+        saved = (mon.phase, mon.step_events, mon.fuse)
+        mon.phase, mon.step_events, mon.fuse = "EARLY", 0, 3000
+        n, end = 0, "left"
+        try:
+            it = query.evaluate()
+            while k < 0 or n < k:
+                try:
+                    next(it)
+                except StopIteration:
+                    end = "stop"
+                    break
+                n += 1
+                if n >= STEP_CAP:
+                    break
+            del it
+        except eworld.FuseBlown:
+            end = "fuse"
+        except Exception as e:
+            end = "exc:" + exc_name(e)
+        finally:
+            mon.phase, mon.step_events, mon.fuse = saved
+        self.early_log.append([qi, k, n, end])
 
     def _make_pattern_query(self, qd: Dict):
         from krrood.entity_query_language.match import entity_matching, match
@@ -308,7 +340,7 @@ def isolated_reference(scenario: Dict, qi: int, fuse: Optional[int] = 200000) ->
     mon = Monitor()
     mon.record = False
     try:
-        built = Built(scenario, mon)
+        built = Built(scenario, mon, reference=True)
     except BuildError:
         raise
     except Exception as e:  # engine refuses the construction: same for every build
@@ -487,6 +519,9 @@ def execute_c03(scenario: Dict) -> Dict:
         log.add("build-exc", exc_name(e))
         return _result(log, counters, [], False, 0, note="build-refused")
 
+    for rec in built.early_log:
+        log.add("early", *rec)
+        counters.inc("fault.evaluated_before_rules_attached")
     fuse = FUSE_FACTOR * max_events + FUSE_SLACK
     tasks: Dict[int, Task] = {}
     cycles = []
@@ -536,6 +571,7 @@ def execute_c03(scenario: Dict) -> Dict:
             "task": task.tid,
             "query": task.qi,
             "rule_query": bool(qd.get("rule")),
+            "evaluated_before_rules": bool(qd.get("rule") and qd["rule"].get("early") is not None),
             "overlap": bool(task.overlaps),
             "shares": share,
             "same_query_overlap": same_query_overlap,
@@ -1009,6 +1045,10 @@ def shrink_candidates(sc: Dict):
                 del c["queries"][qi]["sel"][si]
                 yield c
         rule = q.get("rule")
+        if rule and rule.get("early") is not None:
+            c = _copy.deepcopy(sc)
+            c["queries"][qi]["rule"].pop("early")
+            yield c
         if rule:
             def branch_lists(r, path):
                 yield path
